@@ -149,9 +149,16 @@ func (w *world) expectedReleaseBL(c *contractDef, m string, s *nom.AccountBlock)
 		if err != nil {
 			return nil
 		}
-		return &release{kind: "liqstake", key: "liqstake:" + s.Address.String() + id.String(), to: e.StakeAddress, pays: []*big.Int{new(big.Int).Set(e.Amount)},
+		// the entry's own expiration, and never before the shortest lock the contract offers has passed since its start -
+		// unless the administrator unlocked the entry (UnlockLiquidityStakeEntries brings expirations forward by design)
+		k := string(e.StakeAddress.Bytes()) + string(e.Id.Bytes())
+		r := &release{kind: "liqstake", key: "liqstake:" + s.Address.String() + id.String(), to: e.StakeAddress, pays: []*big.Int{new(big.Int).Set(e.Amount)},
 			zts: []types.ZenonTokenStandard{e.TokenStandard}, notBefore: e.ExpirationTime, ok: e.StakeAddress == s.Address,
-			why: fmt.Sprintf("expiration=%d revoke-time=%d", e.ExpirationTime, e.RevokeTime)}
+			why: fmt.Sprintf("start=%d expiration=%d revoke-time=%d minimum-lock=%d unlocked-by-administrator=%v", e.StartTime, e.ExpirationTime, e.RevokeTime, constants.StakeTimeMinSec, w.unlocked[k])}
+		if !w.unlocked[k] && e.Amount.Sign() > 0 {
+			r.floor = e.StartTime + constants.StakeTimeMinSec
+		}
+		return r
 	case c.Name == "bridge" && m == definition.RedeemUnwrapMethodName:
 		p := new(definition.RedeemParam)
 		if definition.ABIBridge.UnpackMethod(p, m, s.Data) != nil {
@@ -293,8 +300,11 @@ func (w *world) blAfter(c *contractDef, s *nom.AccountBlock, p *blPre, ma *nom.M
 		case p.method == definition.LiquidityStakeMethodName:
 			e := post[key]
 			ok := e != nil && p.entries[key] == nil && e.Amount.Cmp(s.Amount) == 0 && e.TokenStandard == s.TokenStandard && e.RevokeTime == 0 &&
-				e.StartTime == now && e.ExpirationTime == now+p.duration && p.duration > 0 && s.Amount.Sign() > 0
+				e.StartTime == now && e.ExpirationTime-e.StartTime == p.duration && s.Amount.Sign() > 0
 			out.Oracle(ok, "liquidity-entry-differs-from-deposit", d)
+			// the period rule of the contract, stated in lockbounds.go: a whole number of units between the minimum and the maximum
+			d["period"] = I64(p.duration)
+			out.Oracle(stakingPeriodAllowed(p.duration) && e != nil && e.ExpirationTime >= e.StartTime+constants.StakeTimeMinSec, "liquidity-stake-accepted-with-forbidden-period", d)
 			// only configured tokens, at least the configured minimum
 			out.Oracle(p.tupleMin != nil && s.Amount.Cmp(p.tupleMin) >= 0, "liquidity-stake-of-unconfigured-token-or-below-minimum", d)
 			out.Oracle(!changed(func(k string, a, b *definition.LiquidityStakeEntry) bool { return k == key }), "other-entry-changed", d)
@@ -315,6 +325,16 @@ func (w *world) blAfter(c *contractDef, s *nom.AccountBlock, p *blPre, ma *nom.M
 					a.RevokeTime == b.RevokeTime && a.StartTime == b.StartTime && a.ExpirationTime > now && b.ExpirationTime == now
 			})
 			out.Oracle(ok, "unlock-changed-more-than-expirations", d)
+			if s.Address == p.liqAdmin { // the entries the administrator unlocked: their minimum lock is waived
+				if w.unlocked == nil {
+					w.unlocked = map[string]bool{}
+				}
+				for k, a := range p.entries {
+					if b := post[k]; b != nil && b.ExpirationTime != a.ExpirationTime {
+						w.unlocked[k] = true
+					}
+				}
+			}
 			out.Count("locks:unlock-applied")
 		case p.method == definition.UpdateMethodName:
 			// the reward update may remove CLOSED entries (amount 0, revoked); nothing else
@@ -494,6 +514,10 @@ func (w *world) blOp() {
 	switch op := rng.Intn(40); {
 	// ---------------- liquidity
 	case op < 7: // stake
+		if rng.Intn(3) == 0 { // periods at and beyond the edges of the rule (lockbounds.go)
+			w.boundaryLiquidityStake()
+			return
+		}
 		toks := []types.ZenonTokenStandard{bl.lp, bl.lp, bl.tk, znn, types.QsrTokenStandard}
 		z := toks[rng.Intn(len(toks))]
 		holder, bal := w.holderOf(z)
